@@ -222,7 +222,7 @@ def shard_accessor(spec, R):
         order = [("y", "x", "time"), ("time", "y", "x"), ("y", "time", "x")][it % 3]
         da = da.transpose(*order)
         mode = it % 3
-        p = float(rng.uniform(0.05, 0.95))
+        p = float([0.5, rng.uniform(0.05, 0.95), 0.01, 0.99, rng.uniform(0.05, 0.95)][it % 5])  # 0.5 is a value people special-case
         llas = S.gen_llas(rng)
         lcv = None
         if mode == 0:
